@@ -157,7 +157,8 @@ func V4Prefix(k string) string {
 	if err != nil {
 		return k // deliberately invalid prefixes pass through
 	}
-	return fmt.Sprintf("10.%d.%d.0/24", (n>>8)&0xff, n&0xff)
+	// odd keys carry host bits (legal, and kept verbatim as the key by the RIB)
+	return fmt.Sprintf("10.%d.%d.%d/24", (n>>8)&0xff, n&0xff, 3*(n&1))
 }
 
 func V6Prefix(k string) string {
@@ -167,6 +168,9 @@ func V6Prefix(k string) string {
 	n, err := KeyNum(k)
 	if err != nil {
 		return k
+	}
+	if n&1 == 1 {
+		return fmt.Sprintf("2001:db8:%x::1/48", n) // host bits set
 	}
 	return fmt.Sprintf("2001:db8:%x::/48", n)
 }
@@ -188,14 +192,14 @@ func AbsTopKey(kind string, concrete any) string {
 	case "v4":
 		s := concrete.(string)
 		var a, b, c, d, l int
-		if n, _ := fmt.Sscanf(s, "%d.%d.%d.%d/%d", &a, &b, &c, &d, &l); n == 5 && a == 10 && d == 0 && l == 24 {
+		if n, _ := fmt.Sscanf(s, "%d.%d.%d.%d/%d", &a, &b, &c, &d, &l); n == 5 && a == 10 && l == 24 && d == 3*((b<<8|c)&1) {
 			return fmt.Sprintf("k%d", b<<8|c)
 		}
 		return s
 	case "v6":
 		s := concrete.(string)
 		var n uint64
-		if c, _ := fmt.Sscanf(s, "2001:db8:%x::/48", &n); c == 1 && fmt.Sprintf("2001:db8:%x::/48", n) == s {
+		if c, _ := fmt.Sscanf(s, "2001:db8:%x::", &n); c == 1 && V6Prefix(fmt.Sprintf("k%d", n)) == s {
 			return fmt.Sprintf("k%d", n)
 		}
 		return s
